@@ -37,6 +37,8 @@ import (
 	"syscall"
 	"time"
 
+	"github.com/database64128/shadowsocks-go/zerocopy"
+
 	"verif/harness"
 	"verif/shim/vcrand"
 	"verif/shim/vrand"
@@ -86,6 +88,7 @@ type groupSum struct {
 	Classes    map[string]uint64 `json:"classes"`
 	Parts      map[string]uint64 `json:"parts"`
 	Hangs      uint64            `json:"hangs"`
+	CPUms      uint64            `json:"cpu_ms"`
 }
 
 type worker struct {
@@ -102,6 +105,10 @@ type worker struct {
 	out   *bufio.Writer
 
 	distinctAddrs uint64
+	relayResp     []byte
+	cpu0          uint64
+	udpSrv        any
+	ssServerUnp   zerocopy.ServerUnpacker
 	isSeed        bool
 }
 
@@ -275,6 +282,7 @@ groups:
 		if g.setup != nil {
 			g.setup(w)
 		}
+		w.cpu0 = cpuMillis()
 		dedup := map[uint64]struct{}{}
 		var base uint64
 		for _, p := range g.parts {
@@ -340,8 +348,15 @@ groups:
 	os.Exit(0)
 }
 
+func cpuMillis() uint64 {
+	var ru syscall.Rusage
+	syscall.Getrusage(syscall.RUSAGE_SELF, &ru)
+	return uint64(ru.Utime.Sec+ru.Stime.Sec)*1000 + uint64(ru.Utime.Usec+ru.Stime.Usec)/1000
+}
+
 func (w *worker) flushGroup() {
 	w.sum.Addrs = w.distinctAddrs
+	w.sum.CPUms = cpuMillis() - w.cpu0
 	b, _ := json.Marshal(w.sum)
 	w.out.Write(b)
 	w.out.WriteByte('\n')
@@ -638,7 +653,7 @@ func main() {
 		os.Exit(0)
 	}
 	n := harness.Workers()
-	budget := harness.Pick(c, 150*time.Second, 100*time.Minute)
+	budget := harness.Pick(c, 20*time.Minute, 180*time.Minute) // protection only; the enumeration is sized to finish far earlier
 	results := make([]workerResult, n)
 	var wg sync.WaitGroup
 	for i := 0; i < n; i++ {
@@ -672,6 +687,7 @@ func main() {
 			a.Dups += s.Dups
 			a.SeedsOK += s.SeedsOK
 			a.Hangs += s.Hangs
+			a.CPUms += s.CPUms
 			if i == 0 || a.seedsTotal == 0 {
 				a.seedsTotal = max(a.seedsTotal, s.SeedsTotal)
 			}
@@ -722,7 +738,7 @@ func main() {
 		c.Part(a.Group, map[string]any{
 			"what": g.desc, "cases_executed": a.Evals, "operations_on_real_code": a.Ops + a.Evals, "accepted_by_real_code": a.Accepted,
 			"well_formed_by_reference_but_rejected (not demanded)": a.RefOKErr, "distinct_addresses_routed": a.Addrs,
-			"duplicate_inputs_skipped": a.Dups, "seeds_accepted": a.SeedsOK, "seeds": a.seedsTotal, "observation_classes": a.Classes, "cases_by_generator": a.Parts, "relay_hangs": a.Hangs,
+			"duplicate_inputs_skipped": a.Dups, "seeds_accepted": a.SeedsOK, "seeds": a.seedsTotal, "observation_classes": a.Classes, "cases_by_generator": a.Parts, "relay_hangs": a.Hangs, "cpu_seconds (timing, not a count)": float64(a.CPUms) / 1000,
 		})
 		if a.Hangs > 0 {
 			c.Cap(fmt.Sprintf("entry %s: %d relay scenarios did not finish within the hang detector's limit", a.Group, a.Hangs))
